@@ -8,6 +8,7 @@
 import SqlizeModel.Abs.Columns
 import SqlizeModel.Proofs.WalkRefine
 import SqlizeModel.Proofs.MergeRefine
+import SqlizeModel.Proofs.EndToEnd
 import SqlizeModel.Impl.Api
 import SqlizeModel.Spec.Scope
 
@@ -47,6 +48,20 @@ theorem diffed_columns (g : Globals) (hio : g.ignoreOrder = false) (hd : g.diale
     (h2 : Table.diffCols2 (d == .mysql) { t with cols := cols1 } [] old.cols = .ok t1) :
     Abs.execAll t.colNames ((Table.walkCols g tb false [] t1.cols).1.filterMap colStmt) = some old.colNames :=
   (Table.diffed_columns g hio hd tb d t old t1 cols1 h hold hp hadd holdAdd hne hc h1 h2).2
+
+/-- column clause of C02 from scripts to printed statements (see C01.columns_from_scripts) -/
+theorem columns_from_scripts (g : Globals) (hg : g.dialect = .mysql) (hio : g.ignoreOrder = false) (rc : Bool)
+    (old new : List Stmt) (dbO dbN : DB) (ho : old.all Stmt.colSafe = true) (hn : new.all Stmt.colSafe = true)
+    (heo : execAll rc [] old = some dbO) (hen : execAll rc [] new = some dbN)
+    (d : Migration) (hd : loadAndDiff g old new = .ok d)
+    (t : String) (tbO tbN : TableSpec) (hfo : dbO.find t = some tbO) (hfn : dbN.find t = some tbN)
+    (hc : Abs.OrderCompatible tbN.colNames tbO.colNames) (hne : ∀ n ∈ tbN.colNames ++ tbO.colNames, n ≠ "") :
+    ∃ td ∈ d.tables, td.name = t ∧ td.arrange = .ok td ∧
+      td.migrationColumnDown g = .ok (Table.walkCols g t false [] td.cols) ∧
+      Abs.execAll tbN.colNames ((Table.walkCols g t false [] td.cols).1.filterMap colStmt) = some tbO.colNames := by
+  obtain ⟨td, hm, hn', _, ha, _, hdown, _, hex⟩ :=
+    columns_end_to_end g hg hio rc old new dbO dbN ho hn heo hen d hd t tbO tbN hfo hfn hc hne
+  exact ⟨td, hm, hn', ha, hdown, hex⟩
 
 /-- running up and then down on the old column list is the identity -/
 theorem up_down_identity (N O : List Abs.Name) (hN : N.Nodup) (hO : O.Nodup) (hc : Abs.OrderCompatible N O) :
